@@ -10,7 +10,9 @@ KEEP = ("outline", "place", "where", "donor_paint", "copy_paint", "grp", "stack"
 DIMS = {k: scenes.DIMS[k] for k in KEEP}
 DIMS["tol"] = [0.1, 0.5, 0.01, 1e-9, 0]
 DIMS["fmt"] = ["glyf_colr_1", "glyf_colr_0", "picosvg"]
-K = {"quick": 2, "thorough": 3}
+K = {"quick": 2, "thorough": 2}
+# thorough: <= 2 deviations over all dimensions + every state with 3 deviations among the core dimensions (`--only 3` = full level 3)
+CORE3 = ("outline", "place", "where", "donor_paint", "copy_paint", "grp", "stack", "tol", "fmt", "twin", "vb_b", "grad_twice")
 FULL = dict(scenes.DIMS)
 FULL.update(DIMS)
 
@@ -153,7 +155,9 @@ def run(report, tier, only=None):
 
     selftest.run(report)
     k = int(only) if only and only.isdigit() else K[tier]
-    devs, results = ([], []) if only == "cli" else lattice.explore(report, DIMS, k, execute, relevant=scenes.relevant, timeout=300)
+    deep = 3 if tier == "thorough" and not (only and only.isdigit()) else None
+    devs, results = ([], []) if only == "cli" else lattice.explore(report, DIMS, k, execute, relevant=scenes.relevant, timeout=300, deep_dims=CORE3, deep_k=deep)
+    report.extra["deep_sublattice"] = {"dims": [d for d in DIMS if d in CORE3], "bound": deep} if deep else None
     if only != "cli":
         # OT-SVG reuse (<use>, paint attributes moved between the path and its uses) has its own code: a second lattice with
         # picosvg as the base format, so that two scene deviations are explored under it as well
@@ -173,6 +177,8 @@ def run(report, tier, only=None):
             f[1] += int(r[0]["fired"])
     report.extra["states_in_which_reuse_fired"] = {k_: {"states": v[0], "reuse_fired": v[1]} for k_, v in fired.items()}
     report.extra["deviation_bound"] = k
+    if deep:
+        report.assumptions.append("thorough tier: every state with <= 2 deviations over all dimensions plus every state with 3 deviations among the core dimensions listed under deep_sublattice in the evidence")
     for fmt, (n, f) in fired.items():
         if n > 10 and f == 0:
             from vmc.core.report import HarnessError
